@@ -10,6 +10,7 @@ import (
 
 	"github.com/gorilla/websocket"
 
+	"verif/simnet"
 	"verif/simrt"
 )
 
@@ -50,6 +51,10 @@ func enumC13(t *testing.T, tier string) []string {
 	for k := 1; k <= maxW+2; k++ {
 		vs = append(vs, "w"+strconv.Itoa(k))
 	}
+	// one direction only: the k-th and every later write fails, reads keep working
+	for k := 1; k <= maxW+2; k++ {
+		vs = append(vs, "wo"+strconv.Itoa(k))
+	}
 	return vs
 }
 
@@ -60,13 +65,16 @@ func setupC13(x *Ctx) {
 	}
 	uutClient := x.Chance("uut-client", 0.5)
 	x.SigAdd("v="+variant, fmt.Sprintf("client=%v", uutClient))
-	failR, failW := 0, 0
+	failR, failW, failWO := 0, 0, 0
 	switch {
 	case strings.HasPrefix(variant, "r"):
 		failR, _ = strconv.Atoi(variant[1:])
+	case strings.HasPrefix(variant, "wo"):
+		failWO, _ = strconv.Atoi(variant[2:])
 	case strings.HasPrefix(variant, "w"):
 		failW, _ = strconv.Atoi(variant[1:])
 	}
+	x.Net.OnFault = func(c *simnet.Conn, kind string) { x.Ev("fault-fired", kind, c.Name(), 0) }
 	lcReturned := -1
 	endDone := make(chan struct{})
 
@@ -76,6 +84,9 @@ func setupC13(x *Ctx) {
 		}
 		if failW > 0 {
 			r.uc.FailWriteAt = r.baseW + failW
+		}
+		if failWO > 0 {
+			r.uc.FailWriteOnlyAt = r.baseW + failWO
 		}
 		r.wc.InitDataProcessing(&wsRecorder{x: x, name: "U"})
 		x.Go("U:writer", func() {
@@ -159,7 +170,7 @@ func setupC13(x *Ctx) {
 		x.Ev("end-event", variant, "", 0)
 		// > pong wait (60 s) + write wait (10 s)
 		simrt.Sleep(75 * sec)
-		if cause == "none" && rig.uc.Broken() {
+		if cause == "none" && (rig.uc.Broken() || rig.uc.WriteBroken()) {
 			cause = "fault"
 		}
 		x.SigAdd("cause=" + cause)
@@ -216,6 +227,22 @@ func setupC13(x *Ctx) {
 		if !closed {
 			x.Violate("closed-query-wrong", cause, fmt.Sprintf("%s: IsDataConnectionClosed() reports open", variant))
 			return
+		}
+		// a failed transport operation ends the deliveries: the property says "no
+		// further incoming message afterwards"; goroutines may be descheduled for
+		// some milliseconds, so only a delivery more than 1 simulated s after the
+		// failed operation is charged
+		for _, f := range evs {
+			if f.Kind != "fault-fired" {
+				continue
+			}
+			for _, e := range evs {
+				if e.Kind == "recv" && e.T > f.T+sec {
+					x.Violate("delivery-after-failed-operation", f.A, fmt.Sprintf("%s: a transport %s happened at %v; message %d was still handed to the SHIP layer at %v", variant, f.A, f.T, e.N, e.T))
+					return
+				}
+			}
+			break
 		}
 		// nothing delivered afterwards
 		bound := firstErr
